@@ -235,12 +235,15 @@ class Check:
     def finish(self) -> int:
         known = load_known()
         viol, undec, crash = [], [], []
+        announced = set()
         for o in self.obls:
             if o.status == "refuted":
                 kf = match_known(known, self.pid, o.name)
                 if kf is not None:
                     o.known = kf["id"]
-                    print(f"KNOWN-FINDING: property={self.pid} {kf['id']}: {kf['what']} [obligation {o.name}]")
+                    if kf["id"] not in announced:
+                        announced.add(kf["id"])
+                        print(f"KNOWN-FINDING: property={self.pid} {kf['id']}: {kf['what']}")
                 else:
                     viol.append(o)
             elif o.status == "undecided":
